@@ -334,6 +334,25 @@ func vInitialFontWeight() (int, []string) {
 // em is the given font size; keywords, percentages and px are returned unchanged. The result
 // of a conversion is in px (or a bare number when pixelsOnly). The ratios come from the
 // table pr.LengthsToPixels as built by its package initialiser.
+// computed values never share storage with the declared value they are computed from: the declared value
+// belongs to the stylesheet rule and is computed again, against another font size, for every element the rule
+// matches. The list of lengths of a translate() is computed into a fresh list of the same length, and the
+// computed transform list is a fresh list whose translate entries hold that fresh list.
+//@ func _lengthOrPercentageTuple2
+//@   props C04
+//@   requires computer != nil
+//@   modifies anything
+//@   ensures[fresh-list] len(value) > 0 ==> fresh(result) && !samebase(result, value)
+//@   ensures[same-length] len(result) == len(value)
+//@   loop 1 invariant fresh(out) && len(out) == len(value) && (len(value) > 0 ==> !samebase(out, value))
+//@   call length_#1 assert[each-length-with-the-element-font-size] arg0 == computer && arg1.Dimension == value[rangeindex] && arg1.S == "" && arg2 == -1 && !arg3
+//@ func transforms
+//@   props C04
+//@   requires computer != nil
+//@   modifies anything
+//@   ensures[fresh-list] typeIs(_value, pr.Transforms) && len(_value.(pr.Transforms)) > 0 ==> fresh(result.(pr.Transforms))
+//@   call _lengthOrPercentageTuple2#1 assert arg0 == computer
+
 //@ func length_
 //@   props C04
 //@   requires computer != nil
